@@ -17,6 +17,7 @@ import BB.Proofs.G4Seq
 import BB.Proofs.G4Frame
 import BB.Proofs.G4Schema
 import BB.Proofs.G4Example
+import BB.Proofs.G13Seq
 
 namespace BB.C18
 open BB BB.Sequence
@@ -582,5 +583,312 @@ example : exSeq.duration = .ok (1 * 1 + 3 * (2 * 1 + 4 * 1)) := by decide +kerne
 example : exSeq.points = .ok 30 := by decide +kernel
 example : exSub.data.mapM (subPosDuration exSub) = .ok [2 * 1, 4 * 1] := by decide +kernel
 example : Dict.get? exSeq.sequencing 2 = some ⟨0, 3, 0, 0, 1⟩ := by decide
+
+/-! ## G13: closed forms of `Sequence.points` and `Sequence.duration`, with the exact guards -/
+
+/-- the value `Element.points` returns (0 where it raises - never used under the guards below) -/
+def elPoints (e : Element) : ℤ := match e.points with | .ok p => p | .error _ => 0
+
+/-- the value `Element.duration` returns (0 where it raises) -/
+def elDuration (e : Element) : ℚ := match e.duration with | .ok d => d | .error _ => 0
+
+/-- the repetition count stored for a position (0 where the table has no entry) -/
+def nrepAt (tbl : Dict ℤ SeqSet) (pos : ℤ) : ℤ := match Dict.get? tbl pos with | some q => q.nrep | none => 0
+
+/-- points of a stored subsequence: Σ over its positions of the element's points -/
+def subPoints (sub : SubSeq) : ℤ := ((Dict.vals sub.data).map elPoints).sum
+
+/-- duration of a stored subsequence: Σ_j nrep_j · duration_j over its positions -/
+def subDuration (sub : SubSeq) : ℚ := (sub.data.map (fun x => (nrepAt sub.sequencing x.1 : ℚ) * elDuration x.2)).sum
+
+/-- what one position contributes to `Sequence.points` -/
+def entryPoints : Entry → ℤ
+  | .el e => elPoints e
+  | .sub sub => subPoints sub
+
+/-- the duration of what sits at one position (before weighting by the position's repetitions) -/
+def entryDuration : Entry → ℚ
+  | .el e => elDuration e
+  | .sub sub => subDuration sub
+
+/-- **the guard of `Sequence.points`**: `Element.points` succeeds on every stored element - at an
+    element position and inside every stored subsequence (equivalently: every stored element
+    passes `validateDurations`, see `points_guard_iff_validated`) -/
+def PointsGuard (s : Sequence) : Prop :=
+  ∀ x ∈ s.data, (∀ e, x.2 = .el e → ∃ p, e.points = .ok p) ∧
+    (∀ sub : SubSeq, x.2 = .sub sub → ∀ y ∈ sub.data, ∃ p, y.2.points = .ok p)
+
+/-- **the guard of `Sequence.duration`**: every stored position has a sequencing entry and every
+    stored element has a duration - at the top level and inside every stored subsequence -/
+def DurationGuard (s : Sequence) : Prop :=
+  ∀ x ∈ s.data, (∃ q, Dict.get? s.sequencing x.1 = some q) ∧ (∀ e, x.2 = .el e → ∃ d, e.duration = .ok d) ∧
+    (∀ sub : SubSeq, x.2 = .sub sub → ∀ y ∈ sub.data,
+      (∃ q, Dict.get? sub.sequencing y.1 = some q) ∧ ∃ d, y.2.duration = .ok d)
+
+/-- helper (C18 points): `elPoints` is the value `Element.points` returns -/
+theorem elPoints_of_ok (e : Element) (p : ℤ) (h : e.points = .ok p) : elPoints e = p := by
+  simp [elPoints, h]
+
+/-- helper (C18 duration): `elDuration` is the value `Element.duration` returns -/
+theorem elDuration_of_ok (e : Element) (d : ℚ) (h : e.duration = .ok d) : elDuration e = d := by
+  simp [elDuration, h]
+
+/-- helper (C18 duration): `nrepAt` is the `nrep` of the stored sequencing entry -/
+theorem nrepAt_of_get (tbl : Dict ℤ SeqSet) (pos : ℤ) (q : SeqSet) (h : Dict.get? tbl pos = some q) :
+    nrepAt tbl pos = q.nrep := by
+  simp [nrepAt, h]
+
+/-- points of a stored subsequence whose elements all have points -/
+theorem subseq_points_closed_form (sub : SubSeq) (h : ∀ y ∈ sub.data, ∃ p, y.2.points = .ok p) :
+    sub.points = .ok (subPoints sub) := by
+  apply subseq_points_sum
+  apply mapM_ok_of_forall
+  intro e he
+  obtain ⟨y, hy, rfl⟩ := List.mem_map.mp he
+  obtain ⟨p, hp⟩ := h y hy
+  rw [hp, elPoints_of_ok _ p hp]
+
+/-- **`Sequence.points` in closed form**: under the guard, `points` returns the sum over the
+    stored positions of the element's points - for a position holding a subsequence, the sum over
+    its inner positions of the inner elements' points (repetitions are not counted) -/
+theorem points_closed_form (s : Sequence) (hg : PointsGuard s) :
+    s.points = .ok ((Dict.vals s.data).map entryPoints).sum := by
+  apply points_sum
+  apply mapM_ok_of_forall
+  intro en hen
+  obtain ⟨x, hx, rfl⟩ := List.mem_map.mp hen
+  obtain ⟨h1, h2⟩ := hg x hx
+  cases hx2 : x.2 with
+  | el e =>
+    obtain ⟨p, hp⟩ := h1 e hx2
+    simp only [Entry.points, entryPoints, hp, elPoints_of_ok _ p hp]
+  | sub sub => exact subseq_points_closed_form sub (h2 sub hx2)
+
+/-- **the guard is exact**: `Sequence.points` returns a value iff `Element.points` succeeds on every
+    stored element (top level and inside subsequences) -/
+theorem points_ok_iff_guard (s : Sequence) : (∃ p, s.points = .ok p) ↔ PointsGuard s := by
+  constructor
+  · rintro ⟨p, hp⟩
+    unfold Sequence.points at hp
+    obtain ⟨vals, hv⟩ := G13.foldlM_add_int_inv Entry.points (Dict.vals s.data) 0 p _
+      (fun a x => step_eq_map Entry.points a x) hp
+    intro x hx
+    obtain ⟨v, _, hxv⟩ := G2.mapM_ok_mem _ _ _ hv x.2 (List.mem_map.mpr ⟨x, hx, rfl⟩)
+    refine ⟨fun e he => ?_, fun sub hs y hy => ?_⟩
+    · rw [he] at hxv
+      exact ⟨v, hxv⟩
+    · rw [hs] at hxv
+      simp only [Entry.points] at hxv
+      unfold SubSeq.points at hxv
+      obtain ⟨vals', hv'⟩ := G13.foldlM_add_int_inv Element.points (Dict.vals sub.data) 0 v _
+        (fun a x => step_eq_map Element.points a x) hxv
+      obtain ⟨w, _, hw⟩ := G2.mapM_ok_mem _ _ _ hv' y.2 (List.mem_map.mpr ⟨y, hy, rfl⟩)
+      exact ⟨w, hw⟩
+  · intro hg
+    exact ⟨_, points_closed_form s hg⟩
+
+/-- the points guard says: every stored element validates -/
+theorem points_guard_iff_validated (s : Sequence) : PointsGuard s ↔ G11.InnerValidated s := by
+  constructor
+  · intro hg x hx
+    refine ⟨fun e he => ?_, fun sub hs y hy => ?_⟩
+    · obtain ⟨p, hp⟩ := (hg x hx).1 e he
+      exact G13.points_ok_validated e p hp
+    · obtain ⟨p, hp⟩ := (hg x hx).2 sub hs y hy
+      exact G13.points_ok_validated y.2 p hp
+  · intro hv x hx
+    refine ⟨fun e he => ?_, fun sub hs y hy => ?_⟩
+    · obtain ⟨m, hm⟩ := (hv x hx).1 e he
+      exact (G13.validated_points_duration e m hm).1
+    · obtain ⟨m, hm⟩ := (hv x hx).2 sub hs y hy
+      exact (G13.validated_points_duration y.2 m hm).1
+
+/-- duration of a stored subsequence whose positions all have a sequencing entry and whose
+    elements all have a duration: Σ_j nrep_j · duration_j -/
+theorem subseq_duration_closed_form (sub : SubSeq)
+    (h : ∀ y ∈ sub.data, (∃ q, Dict.get? sub.sequencing y.1 = some q) ∧ ∃ d, y.2.duration = .ok d) :
+    sub.duration = .ok (subDuration sub) := by
+  apply subseq_duration_sum
+  apply mapM_ok_of_forall
+  intro y hy
+  obtain ⟨⟨q, hq⟩, d, hd⟩ := h y hy
+  simp only [subPosDuration, hq, hd, Except.map, nrepAt_of_get _ _ q hq, elDuration_of_ok _ d hd]
+
+/-- **`Sequence.duration` in closed form**: under the guard, `duration` returns
+    `Σ_p nrep_p · D_p` over the stored positions, where `D_p` is the element's duration or, for a
+    position holding a subsequence, `Σ_j nrep_j · duration_j` over its inner positions -/
+theorem duration_closed_form (s : Sequence) (hg : DurationGuard s) :
+    s.duration = .ok (s.data.map (fun x => (nrepAt s.sequencing x.1 : ℚ) * entryDuration x.2)).sum := by
+  apply duration_sum
+  apply mapM_ok_of_forall
+  intro x hx
+  obtain ⟨⟨q, hq⟩, h1, h2⟩ := hg x hx
+  obtain ⟨pos, en⟩ := x
+  simp only at hq h1 h2 ⊢
+  rw [nrepAt_of_get _ _ q hq]
+  cases en with
+  | el e =>
+    obtain ⟨d, hd⟩ := h1 e rfl
+    rw [posDuration_spec s pos (.el e) q d hq hd]
+    simp only [entryDuration, elDuration_of_ok _ d hd]
+  | sub sub =>
+    rw [posDuration_spec s pos (.sub sub) q (subDuration sub) hq (subseq_duration_closed_form sub (h2 sub rfl))]
+    rfl
+
+/-- helper: a successful `posDuration` means: sequencing entry present, entry duration available -/
+theorem posDuration_ok_inv (s : Sequence) (x : ℤ × Entry) (v : ℚ) (h : posDuration s x = .ok v) :
+    (∃ q, Dict.get? s.sequencing x.1 = some q) ∧ ∃ d, x.2.duration = .ok d := by
+  unfold posDuration at h
+  cases hq : Dict.get? s.sequencing x.1 with
+  | none => rw [hq] at h; cases h
+  | some q =>
+    rw [hq] at h
+    cases hd : x.2.duration with
+    | error e => rw [hd] at h; simp [Except.map] at h
+    | ok d => exact ⟨⟨q, rfl⟩, d, rfl⟩
+
+/-- **the guard is exact**: `Sequence.duration` returns a value iff every stored position (top
+    level and inside subsequences) has a sequencing entry and every stored element a duration -/
+theorem duration_ok_iff_guard (s : Sequence) : (∃ d, s.duration = .ok d) ↔ DurationGuard s := by
+  constructor
+  · rintro ⟨d, hd⟩
+    unfold Sequence.duration at hd
+    obtain ⟨vals, hv⟩ := G13.foldlM_add_rat_inv (posDuration s) s.data 0 d _ (fun a x => rfl) hd
+    intro x hx
+    obtain ⟨v, _, hxv⟩ := G2.mapM_ok_mem _ _ _ hv x hx
+    obtain ⟨hq, dd, hdd⟩ := posDuration_ok_inv s x v hxv
+    refine ⟨hq, fun e he => ?_, fun sub hs y hy => ?_⟩
+    · rw [he] at hdd
+      exact ⟨dd, hdd⟩
+    · rw [hs] at hdd
+      simp only [Entry.duration] at hdd
+      unfold SubSeq.duration at hdd
+      obtain ⟨vals', hv'⟩ := G13.foldlM_add_rat_inv (subPosDuration sub) sub.data 0 dd _ (by
+        rintro a ⟨pos, e⟩
+        simp only [subPosDuration]
+        cases Dict.get? sub.sequencing pos with
+        | none => rfl
+        | some q => cases e.duration <;> rfl) hdd
+      obtain ⟨w, _, hw⟩ := G2.mapM_ok_mem _ _ _ hv' y hy
+      unfold subPosDuration at hw
+      cases hq2 : Dict.get? sub.sequencing y.1 with
+      | none => rw [hq2] at hw; cases hw
+      | some q2 =>
+        rw [hq2] at hw
+        cases hd2 : y.2.duration with
+        | error e => rw [hd2] at hw; simp [Except.map] at hw
+        | ok d2 => exact ⟨⟨q2, rfl⟩, d2, rfl⟩
+  · intro hg
+    exact ⟨_, duration_closed_form s hg⟩
+
+/-- **both guards hold for every sequence built through the public API** (`Sequence.ApiBuilt`):
+    every stored element validated when it was added (hence has points and a duration), and every
+    stored position got its sequencing entry together with its content -/
+theorem built_guards (s : Sequence) (h : Sequence.ApiBuilt s) : PointsGuard s ∧ DurationGuard s := by
+  have hv := G11.apiBuilt_innerValidated h
+  have hq := G13.apiBuilt_sequenced h
+  refine ⟨(points_guard_iff_validated s).mpr hv, fun x hx => ⟨?_, fun e he => ?_, fun sub hs y hy => ⟨?_, ?_⟩⟩⟩
+  · cases hg : Dict.get? s.sequencing x.1 with
+    | none => have := (hq x hx).1; rw [hg] at this; cases this
+    | some q => exact ⟨q, rfl⟩
+  · obtain ⟨m, hm⟩ := (hv x hx).1 e he
+    exact ⟨m.2, (G13.validated_points_duration e m hm).2⟩
+  · cases hg : Dict.get? sub.sequencing y.1 with
+    | none => have := (hq x hx).2 sub hs y hy; rw [hg] at this; cases this
+    | some q => exact ⟨q, rfl⟩
+  · obtain ⟨m, hm⟩ := (hv x hx).2 sub hs y hy
+    exact ⟨m.2, (G13.validated_points_duration y.2 m hm).2⟩
+
+/-- **`Sequence.points` of an API-built sequence** never raises and is the sum over the positions
+    of the element's points (for a subsequence position: the sum over its inner positions) -/
+theorem points_built (s : Sequence) (h : Sequence.ApiBuilt s) :
+    s.points = .ok ((Dict.vals s.data).map entryPoints).sum :=
+  points_closed_form s (built_guards s h).1
+
+/-- **`Sequence.duration` of an API-built sequence** never raises and is
+    `Σ_p nrep_p · (element duration | Σ_j nrep_j · duration_j)` -/
+theorem duration_built (s : Sequence) (h : Sequence.ApiBuilt s) :
+    s.duration = .ok (s.data.map (fun x => (nrepAt s.sequencing x.1 : ℚ) * entryDuration x.2)).sum :=
+  duration_closed_form s (built_guards s h).2
+
+/-- **a position with `nrep = 0` contributes 0 to the duration** - as the code computes it: the
+    summand is `0 · duration(entry)`, so the entry's duration is still *evaluated* and must not
+    raise (see the example below: with `nrep = 0` and an element that does not validate,
+    `Sequence.duration` raises) -/
+theorem nrep_zero_contributes_zero (s : Sequence) (pos : ℤ) (en : Entry) (q : SeqSet) (d : ℚ)
+    (hq : Dict.get? s.sequencing pos = some q) (h0 : q.nrep = 0) (hd : en.duration = .ok d) :
+    posDuration s (pos, en) = .ok 0 ∧ (nrepAt s.sequencing pos : ℚ) * entryDuration en = 0 := by
+  constructor
+  · rw [posDuration_spec s pos en q d hq hd, h0]; simp
+  · rw [nrepAt_of_get _ _ q hq, h0]; simp
+
+/-- the same inside a subsequence: an inner position with `nrep = 0` contributes 0 to the
+    subsequence's duration -/
+theorem inner_nrep_zero_contributes_zero (sub : SubSeq) (pos : ℤ) (e : Element) (q : SeqSet) (d : ℚ)
+    (hq : Dict.get? sub.sequencing pos = some q) (h0 : q.nrep = 0) (hd : e.duration = .ok d) :
+    subPosDuration sub (pos, e) = .ok 0 ∧ (nrepAt sub.sequencing pos : ℚ) * elDuration e = 0 := by
+  constructor
+  · simp [subPosDuration, hq, hd, Except.map, h0]
+  · rw [nrepAt_of_get _ _ q hq, h0]; simp
+
+/-! ### non-vacuity of the closed forms -/
+
+/-- the example sequence (an element at position 1, a two-position subsequence at position 2)
+    satisfies both guards -/
+theorem exSeq_guards : PointsGuard exSeq ∧ DurationGuard exSeq := by
+  have hp : exEl.points = .ok 10 := by decide +kernel
+  have hd : exEl.duration = .ok 1 := by decide +kernel
+  constructor
+  · intro x hx
+    simp only [exSeq, List.mem_cons, List.not_mem_nil, or_false] at hx
+    rcases hx with rfl | rfl
+    · refine ⟨fun e he => ?_, fun sub hs => ?_⟩
+      · cases he; exact ⟨10, hp⟩
+      · cases hs
+    · refine ⟨fun e he => ?_, fun sub hs y hy => ?_⟩
+      · cases he
+      · cases hs
+        simp only [exSub, List.mem_cons, List.not_mem_nil, or_false] at hy
+        rcases hy with rfl | rfl <;> exact ⟨10, hp⟩
+  · intro x hx
+    simp only [exSeq, List.mem_cons, List.not_mem_nil, or_false] at hx
+    rcases hx with rfl | rfl
+    · refine ⟨⟨_, rfl⟩, fun e he => ?_, fun sub hs => ?_⟩
+      · cases he; exact ⟨1, hd⟩
+      · cases hs
+    · refine ⟨⟨_, rfl⟩, fun e he => ?_, fun sub hs y hy => ?_⟩
+      · cases he
+      · cases hs
+        simp only [exSub, List.mem_cons, List.not_mem_nil, or_false] at hy
+        rcases hy with rfl | rfl <;> exact ⟨⟨_, rfl⟩, 1, hd⟩
+
+/-- the closed forms on the example: points `10 + (10 + 10)`, duration `1·1 + 3·(2·1 + 4·1)` -/
+example : ((Dict.vals exSeq.data).map entryPoints).sum = 30 ∧
+    (exSeq.data.map (fun x => (nrepAt exSeq.sequencing x.1 : ℚ) * entryDuration x.2)).sum = 19 := by
+  constructor <;> decide +kernel
+
+/-- a sequence built through the public API (one element, repetitions set to 0 afterwards): both
+    closed forms apply without any guard, and the position with `nrep = 0` contributes nothing -/
+def exBuiltZero : Sequence :=
+  (SeqCore.setSequencing (Sequence.addElement (SeqCore.setSR {} (.num 10)) 1
+    (({} : Element).addBluePrint (.int 1) exBP).st).st 1 (fun q => { q with nrep := 0 })).st
+
+/-- non-vacuity (C18 points/duration of API-built sequences): the example is built through the public API -/
+theorem exBuiltZero_built : Sequence.ApiBuilt exBuiltZero :=
+  .setSequencing _ _ _ (.addElement _ _ _ (.setSpec _ _ _ .empty) (.addBluePrint _ _ _ .empty))
+
+example : exBuiltZero.points = .ok 10 ∧ exBuiltZero.duration = .ok 0 ∧
+    (Dict.get? exBuiltZero.sequencing 1).map (·.nrep) = some 0 := by
+  refine ⟨by decide +kernel, by decide +kernel, by decide +kernel⟩
+
+/-- "as the code computes it": with `nrep = 0` the element's duration is still evaluated - a stored
+    element that does not validate makes `Sequence.duration` (and `points`) raise although its
+    weight is 0 -/
+example :
+    let bad : Sequence :=
+      { data := [(1, .el { chans := [(.int 1, { data := .broken })] })],
+        sequencing := [(1, ⟨0, 0, 0, 0, 0⟩)], awgspecs := [("SR", .val (.num 10))] }
+    bad.duration.toOption = none ∧ bad.points.toOption = none := by
+  decide +kernel
 
 end BB.C18
